@@ -92,6 +92,9 @@ def plan(tier, seed):
     alpha = ['a', 'b', 'c'] if tier == 'quick' else ['a', 'b', 'c', 'd']
     tasks.append(('replay_step', {'alphabet': alpha}))
     tasks.append(('replay_step', {'alphabet': alpha[:3], 'reorder': True, 'two_sessions': True}))
+    nb = 3 if tier == 'quick' else 4
+    for kinds in ([['blob', 0]], [['blob', nb]], [['missing', 0], ['blob', 2]], [['blob', 2], ['blob', 2]], [['blob', 1], ['missing', 0], ['blob', 0]], [['blob', nb], ['blob', 1]]):
+        tasks.append(('blob_reader', {'kinds': kinds}))
     return tasks
 
 
@@ -286,11 +289,71 @@ def ob_replay_step(h, shape):
     h.sample = h.witness()
 
 
-OBLIGATIONS = {'inert': ob_inert, 'shift': ob_shift, 'replay_step': ob_replay_step}
+def ob_blob_reader(h, shape):
+    """K4: the replay reads file contents from `git cat-file --batch`: <oid> SP <type> SP <size> LF <size bytes> LF,
+    or `<oid> missing` LF.  Every present blob must come back byte for byte under its oid, however the contents
+    look (line feeds, text that looks like a header, empty)."""
+    P = h.P
+    M = P.M
+    kinds = shape['kinds']          # per object: ('blob', n) | ('missing', 0)
+    out = []
+    want = {}
+    desc = []
+    for i, (k, n) in enumerate(kinds):
+        oid = ('%x' % (i + 10)) * 40
+        oid = oid[:40]
+        if k == 'missing':
+            out += list(oid.encode()) + list(b' missing\n')
+            desc.append({'oid': oid, 'missing': True})
+            continue
+        body = [h.byte_in('b%d_%d' % (i, j), [97, 10, 32, 48]) for j in range(n)]
+        out += list(oid.encode()) + list(b' blob ') + list(str(n).encode()) + [10] + body + [10]
+        want[oid] = body
+        desc.append({'oid': oid, 'content': ByteStr(body)})
+    h.inputs_struct = {'objects': desc}
+    data = VecV([b if isinstance(b, Sc) else Sc(b, 8) for b in out])
+    P.state['c02_open'] = True
+    try:
+        r = P.call_named(RA + '::parse_cat_file_batch_output_with_oids', [SliceRef(data, 0, len(out))])
+    except Panic as e:
+        h.panic('K4-no-panic', e.msg)
+        return
+    h.require(r.var == 'Ok', 'K4-reader-accepts-git-output', 'well-formed cat-file --batch output was rejected')
+    if r.var != 'Ok':
+        return
+    got = {}
+    for k_, v_ in r.f[0].ent:
+        got[bytes(concrete_bytes(as_bytes(k_))).decode()] = list(as_bytes(v_))
+    h.require(set(got) == set(want), 'K4-exactly-the-present-blobs', 'blobs returned %r, present %r' % (sorted(got), sorted(want)))
+    if set(got) == set(want):
+        h.require(all_of([bytes_equal(got[o], want[o]) for o in want]), 'K4-contents-byte-for-byte', 'a blob\'s content came back changed')
+    h.sample = h.witness()
+
+
+OBLIGATIONS = {'inert': ob_inert, 'shift': ob_shift, 'replay_step': ob_replay_step, 'blob_reader': ob_blob_reader}
 MUST_COVER = ['K3-restored-from-original', 'K3-carried-by-diff']
 
 
 def replay(v, native):
+    if 'running' in v['inputs']:
+        inp = v['inputs']
+        r = native('c02_replay_step', inp)
+        if 'panic' in r:
+            return {'reproduced': v['kind'] == 'panic', 'native': r}
+        if v['kind'] == 'panic':
+            return {'reproduced': False, 'native': r}
+        who = inp['authors']
+        lost = [x for x, a in zip(inp['final'], r.get('authors', [])) if who.get(x) and a != who.get(x)]
+        gained = [x for x, a in zip(inp['final'], r.get('authors', [])) if not who.get(x) and a]
+        bad = {'K3-step-ok': not r.get('ok'), 'K3-surviving-ai-lines-keep-their-session': bool(lost), 'K3-nothing-else-becomes-ai': bool(gained)}
+        return {'reproduced': bool(bad.get(v['obligation'])), 'native': r, 'lost': lost, 'gained': gained}
+    if 'objects' in v['inputs']:
+        r = native('c02_blob_reader', v['inputs'])
+        if 'panic' in r:
+            return {'reproduced': v['kind'] == 'panic', 'native': r}
+        if v['kind'] == 'panic':
+            return {'reproduced': False, 'native': r}
+        return {'reproduced': v['obligation'] in r.get('failed', []), 'native': r}
     inp = v['inputs']
     if 'kind' in inp:
         r = native('c02_shift', inp)
